@@ -75,6 +75,16 @@ def _helper_table(funcs, names):
     return tab
 
 
+def canonical_pair(f, cls, rf, cls_r, new_helpers, gone_helpers, cur_consts, ref_consts):
+    s1 = equiv.sized_chains(list(cls.body) if cls is not None else []) | {c for c in equiv.sized_chains([f]) if c[0] != 'self'}
+    s2 = equiv.sized_chains(list(cls_r.body) if cls_r is not None else []) | {c for c in equiv.sized_chains([rf]) if c[0] != 'self'}
+    c1 = equiv.canonical(f, new_helpers, cur_consts, s1, cls.name if cls is not None else '')
+    if c1 is None:
+        return None, None
+    c2 = equiv.canonical(rf, gone_helpers, ref_consts, s2, cls_r.name if cls_r is not None else '')
+    return c1, c2
+
+
 def apply(cur_tree, ref_tree, prepare):
     """prepare: callable(tree) applying the loader's statement normalisations to the reference tree.
     Returns the list of qualified names analysed in their reference spelling."""
@@ -94,14 +104,8 @@ def apply(cur_tree, ref_tree, prepare):
             continue
         if [ast.dump(d) for d in f.decorator_list] != [ast.dump(d) for d in rf.decorator_list]:
             continue
-        cls_r = ref[q][2]
-        s1 = equiv.sized_chains(list(cls.body) if cls is not None else []) | {c for c in equiv.sized_chains([f]) if c[0] != 'self'}
-        s2 = equiv.sized_chains(list(cls_r.body) if cls_r is not None else []) | {c for c in equiv.sized_chains([rf]) if c[0] != 'self'}
-        c1 = equiv.canonical(f, new_helpers, cur_consts, s1)
-        if c1 is None:
-            continue
-        c2 = equiv.canonical(rf, gone_helpers, ref_consts, s2)
-        if c2 is None or c1 != c2:
+        c1, c2 = canonical_pair(f, cls, rf, ref[q][2], new_helpers, gone_helpers, cur_consts, ref_consts)
+        if c1 is None or c2 is None or c1 != c2:
             continue
         new_body = copy.deepcopy(rf.body)
         shift = f.lineno - rf.lineno
